@@ -447,7 +447,7 @@ class Kernel:
             if self.spin_count >= self.spin_limit:
                 # only a livelock if nobody else can run and no event is pending
                 others = [t for t in self.threads if t is not self.current and self._is_runnable(t)]
-                if not others and not self.events:
+                if not others and self._next_deadline(active_only=True) is None:
                     self.livelock = True
                     self.log("livelock", signature)
                     self._finish("livelock")
